@@ -31,6 +31,10 @@ def _patterns(rng, alg, cfg):
         blocks = [tuple(alg.indices_for_grades[(g,)]) for g in range(alg.d + 1)]
         blocks += [tuple(alg.indices_for_grades[tuple(range(0, alg.d + 1, 2))]), tuple(alg.indices_for_grades[tuple(range(1, alg.d + 1, 2))])]
         cases += [(a, b) for a in blocks for b in blocks]
+    if cfg.get('wide'):
+        # results with more than 16 stored blades (the even subalgebra applied to all vectors and bivectors): whatever the
+        # code generator does per block of outputs is exercised on every run, not only when a random pattern is dense enough
+        cases.append((tuple(alg.indices_for_grades[tuple(range(0, alg.d + 1, 2))]), tuple(alg.indices_for_grades[(1, 2)])))
     for _ in range(cfg.get('random', 0)):
         cases.append((rand_keys(rng, alg), rand_keys(rng, alg)))
     return cases
